@@ -619,6 +619,8 @@ def run(tier):
     hash_compare_shape(chk, 'src/ssl/ssl_hs_client.c', 'verify_SKE_sig')
     hash_compare_shape(chk, 'src/ssl/ssl_hs_server.c', 'verify_CV_sig')
     chk.floor('rule instances', len(chk.obls), 30)
+    from .c10 import pkcs1_v15_template
+    pkcs1_v15_template(chk)           # ServerKeyExchange / CertificateVerify RSA signatures: exact EMSA-PKCS1-v1_5 template
     from .c01 import transcript_follows_wire
     transcript_follows_wire(chk)      # what Finished authenticates is the running hash: it must be fed exactly the bytes moved through the handshake window
     from .. import lints
